@@ -232,9 +232,10 @@ def make_detector(name, N):
             c.ensure("S4_configuration_bits_of_the_reported_sets", z3.Implies(rep, z3.And(flags == cfgbits, c.nx(flags) == cfgbits)),
                      clause="reports their configuration bits (hot reset / loopback / scrambling-disabled of the completed set)")
         deep = (N * n + 4) > 22
-        c.cover("report", rep, reach=not deep)
+        if not deep:       # (deep configurations: reachability of a report is shown on the small-N configurations of the same set)
+            c.cover("report", rep)
         c.cover("gap_inside_set", z3.And(z3.Not(valid), k == 2, trk == 1, skip == 0))
-        c.cover("other_data_after_gap", z3.And(intr, k == n, e1 == 0, trk == 1), reach=not deep or True)
+        c.cover("other_data_after_gap", z3.And(intr, k == n, e1 == 0, trk == 1))
         c.cover("untracked_set_completes", z3.And(E, trk == 0))
         c.cover_depth = 24
     return contract
@@ -242,8 +243,8 @@ def make_detector(name, N):
 
 def contracts(tier):
     if tier == "quick":
-        em = [("TS1", 1), ("TS1", 3), ("TS2", 2), ("TS2", 16), ("TSEQ", 2), ("TSEQ", 65536)]
-        de = [("TS1", 1), ("TS1", 2), ("TS1", 8), ("TS2", 2), ("TS2", 8), ("TSEQ", 2), ("TSEQ", 32), ("INVTS1", 8)]
+        em = [("TS1", 3), ("TS2", 2), ("TS2", 16), ("TSEQ", 65536)]        # 16 / 65536: as instantiated by TSTransceiver
+        de = [("TS1", 1), ("TS2", 2), ("TS1", 8), ("TS2", 8), ("TSEQ", 32), ("INVTS1", 8)]
     else:
         em = [(s, b) for s in ("TS1", "TS2", "TSEQ", "INVTS1") for b in (1, 2, 3, 4, 7, 16, 255, 65536)]
         de = [(s, b) for s in ("TS1", "TS2", "TSEQ", "INVTS1") for b in (1, 2, 3, 4, 8, 31, 32, 255)]
